@@ -86,7 +86,7 @@ def mutate_tree(rng, root, nops=None, tags=('a', 'b', 'c'), attrs=('i', 'j', 'k'
     for _ in range(nops or rng.randint(1, 4)):
         nodes = list(r.iter())
         n = rng.choice(nodes)
-        op = rng.randint(0, 7)
+        op = rng.randint(0, 8)
         elems = [x for x in nodes if x.tag is not etree.Comment]
         if op == 0 and n is not r:
             n.getparent().remove(n)
@@ -105,6 +105,10 @@ def mutate_tree(rng, root, nops=None, tags=('a', 'b', 'c'), attrs=('i', 'j', 'k'
             n.tag = rng.choice(tags)
         elif op == 6 and n is not r:
             n.tail = rng.choice(['t', None])
+        elif op == 8 and n.tag is not etree.Comment and n.tag in tags:
+            # rename AND change an attribute of the same node (its path changes between the two actions)
+            n.tag = rng.choice([t for t in tags if t != n.tag])
+            n.set(rng.choice(attrs), rng.choice(values))
         elif op == 7 and n.tag is not etree.Comment and len(n.attrib):
             k = rng.choice(sorted(n.attrib))
             if rng.random() < .5:
